@@ -3508,6 +3508,14 @@ fn convert_member_key_simple<'a>(
   span: ast::Span,
 ) -> Result<ast::MemberKey<'a>, Error> {
   for inner in pair.into_inner() {
+    // the key's own extent: the entry span also covers the occurrence and
+    // the entry type
+    let span = match inner.as_rule() {
+      Rule::type1 | Rule::bareword | Rule::typename | Rule::value => {
+        pest_span_to_ast_span(&inner.as_span(), input)
+      }
+      _ => span,
+    };
     match inner.as_rule() {
       Rule::type1 => {
         // type1 form (RFC 8610 §3.5.1): "type1 S [\"^\" S] \"=>\"".
